@@ -368,6 +368,17 @@ def text_of(cps):
         return None
 
 
+def pretty(x):
+    """Readable rendering of trace values: arrays of one-character strings become strings."""
+    if isinstance(x, list):
+        if x and all(isinstance(c, str) and len(c) == 1 for c in x):
+            return "".join(x)
+        return [pretty(v) for v in x]
+    if isinstance(x, dict):
+        return {k: pretty(v) for k, v in x.items()}
+    return x
+
+
 def finish(ctx, level, coverage, assumptions, failures, replay_family=None):
     """failures: list of {"rec": trace record, "failed": [conjuncts], "family": fam}.
     Classifies against KNOWN_FINDINGS.txt, writes evidence, prints verdict lines, returns exit code."""
@@ -390,14 +401,12 @@ def finish(ctx, level, coverage, assumptions, failures, replay_family=None):
     replay_paths = []
     if unknown:
         os.makedirs(REPLAYS, exist_ok=True)
-        seen = set()
+        seen = {}
         for fl in unknown:
             key = (fl.get("family"), tuple(fl["failed"]))
-            if key in seen and len(replay_paths) >= 5:
+            seen[key] = seen.get(key, 0) + 1
+            if seen[key] > 2 or len(replay_paths) >= 12:
                 continue
-            seen.add(key)
-            if len(replay_paths) >= 20:
-                break
             blob = json.dumps({"property": ctx.prop, "family": fl.get("family"), "failed": fl["failed"], "record": fl["rec"],
                                "seed": ctx.seed}, sort_keys=True, indent=1)
             h = hashlib.sha256(blob.encode()).hexdigest()[:12]
@@ -407,8 +416,9 @@ def finish(ctx, level, coverage, assumptions, failures, replay_family=None):
             replay_paths.append(path)
             log("VIOLATION property=%s replay=%s" % (ctx.prop, path))
             log("  failed conjuncts: %s" % ",".join(fl["failed"]))
-            log("  case: %s" % json.dumps(fl["rec"].get("case"), separators=(",", ":"))[:600])
-            log("  obs:  %s" % json.dumps(fl["rec"].get("obs"), separators=(",", ":"))[:600])
+            log("  case: %s" % json.dumps(pretty(fl["rec"].get("case")), separators=(",", ":"), ensure_ascii=False)[:500])
+            log("  conc: %s" % json.dumps(pretty(fl["rec"].get("conc")), separators=(",", ":"), ensure_ascii=False)[:300])
+            log("  obs:  %s" % json.dumps(pretty(fl["rec"].get("obs")), separators=(",", ":"), ensure_ascii=False)[:500])
         rc = 1
     coverage = dict(coverage)
     coverage.setdefault("states", ctx.states)
